@@ -11,7 +11,7 @@ from pathlib import Path
 from ..common import REPO, coq_eval, impl_env, run as run_cmd, scratch_dir
 
 MANIFEST = {
-	'text': 'lt_key, lt_strict_weak_order (all strings), proposal_independent_of_input_order, propose_idempotent, propose_no_complaint, '
+	'text': 'lt_key, lt_strict_weak_order (all strings), lt_trichotomy, not_after_is_total_order, key_determines_include, proposal_independent_of_input_order, propose_idempotent, propose_no_complaint, '
 		'fix_touches_only_fixes, fix_then_no_indent_complaint, fix_idempotent (premise: no recorded preprocessor line ends in blanks) are Qed '
 		'theorems (Props/C20.v) over the model of SortableInclude/Entry.check_includes/HeaderParser.fix_indents with operators, constants and '
 		'tables regenerated from linters/cpp on every run; comparator, sort, proposal, include parsing, fixes list, fixer and reporter are '
